@@ -50,7 +50,7 @@ ARR = ('list fill loops: arena modelled by malloc BODIES (-DCQV_PT_ARENA_BODIES)
 JOBS = []
 JOBS += parse_jobs('parse_statistics', 'h_parse_statistics', est=90, c08_wip=DONE, c19_wip=DONE, note19=N19)
 JOBS += parse_jobs('parse_logical_type', 'h_parse_logical_type', loops=7, est=420, tier='thorough', timeout=1200, c08_wip=DONE,
-                   note19='no allocation in this function: identical to the C08 job, not run separately')
+                   note19='no allocation in this function: same obligations as c08_parse_logical_type (7 min); not run separately')
 JOBS += parse_jobs('parse_schema_element', 'h_parse_schema_element', callees=['parse_logical_type'], c08_wip=DONE, c19_wip=DONE, note19=N19)
 JOBS += parse_jobs('parse_column_metadata', 'h_parse_column_metadata', callees=['parse_statistics'], loops=7, est=600, arena_bodies=True,
                    tier='thorough', timeout=1500, c08_wip=DONE, c19_wip=DONE, note08=ARR, note19=N19)
@@ -59,8 +59,7 @@ JOBS += parse_jobs('parse_row_group', 'h_parse_row_group', callees=['parse_colum
                    c08_wip=DONE, c19_wip=DONE, note08=ARR, note19=N19)
 JOBS += parse_jobs('parquet_parse_file_metadata', 'h_parse_file_metadata', callees=['parse_schema_element', 'parse_row_group'], arena_bodies=True,
                    loops=5, est=200, tier='thorough', replayer=FZ_FM, c08_wip=DONE, c19_wip=DONE, note08=ARR, note19=N19)
-JOBS += parse_jobs('parquet_parse_page_header', 'h_parse_page_header', loops=4, est=160, replayer=FZ_PH, c08_wip=DONE,
-                   note19='no allocation in this function: identical to the C08 job, not run separately')
+JOBS += parse_jobs('parquet_parse_page_header', 'h_parse_page_header', loops=4, est=160, replayer=FZ_PH, c08_wip=DONE, c19_wip=DONE)
 
 # ---- C13 writer conformance: thrift_write_* are checking bodies (-DCQV_PT_WRITER); pointer checks off -------------
 TRUST_W = ['stubs/ptypes_stubs.c (-DCQV_PT_WRITER): thrift_write_* replaced by bodies that keep a ghost stack of open structs and '
@@ -118,12 +117,14 @@ JOBS += [
     # memset(lt, 0, 12) must keep its zeroes (unknown tag => UNKNOWN): exact byte-wise memset, 16-iteration loop unwound
     disp_job('parse_logical_type', 'h_disp_logical_type', props=('C13', 'C17'), name='c13_parse_logical_type_ids',
              defines=['CQV_PT_RLOG=1', 'CQV_PT_ARENA_BODIES=1', 'CQV_ALLOC_NEVER_FAILS=1', 'CQV_MEMSET_EXACT=16'],
-             unwindset=['memset.0:17']),
-    disp_job('parse_statistics', 'h_disp_statistics'),
-    disp_job('parse_schema_element', 'h_disp_schema_element'),
-    disp_job('parse_column_metadata', 'h_disp_column_metadata'),
-    disp_job('parse_column_chunk', 'h_disp_column_chunk'),
-    disp_job('parse_row_group', 'h_disp_row_group'),
-    disp_job('parquet_parse_file_metadata', 'h_disp_file_metadata'),
-    disp_job('parquet_parse_page_header', 'h_disp_page_header'),
+             unwindset=['memset.0:17'], wip=False, est_s=10),
+    disp_job('parse_statistics', 'h_disp_statistics', wip=False, est_s=10),
+    disp_job('parse_schema_element', 'h_disp_schema_element', wip=False, est_s=30),
+    disp_job('parse_column_metadata', 'h_disp_column_metadata', wip=False, est_s=60),
+    disp_job('parse_column_chunk', 'h_disp_column_chunk', wip=False, tier='thorough', est_s=300),
+    disp_job('parse_row_group', 'h_disp_row_group', tier='thorough',
+             note='UNDECIDED: with parse_column_chunk/parse_column_metadata inlined for 2 list elements the run exceeds 600 s'),
+    disp_job('parquet_parse_file_metadata', 'h_disp_file_metadata', tier='thorough',
+             note='UNDECIDED: not run to completion (same reason as c13_disp_parse_row_group)'),
+    disp_job('parquet_parse_page_header', 'h_disp_page_header', wip=False, est_s=40),
 ]
